@@ -105,12 +105,20 @@ Definition spec_probe (p : str) : option (list seg) :=
 Definition kind_bits (k : skind) : Z :=
   match k with SKDir => mode_dir | SKReg => 0 | SKSym => mode_symlink end.
 
-(* strict = compare the permission bits of directories too *)
+(* the 12 unix mode bits an fs.FileMode stands for *)
+Definition unix_mode_of (m : Z) : Z :=
+  Z.land m 511 + (if Z.testbit m 23 then 2048 else 0) + (if Z.testbit m 22 then 1024 else 0)
+               + (if Z.testbit m 20 then 512 else 0).
+(* every bit of an fs.FileMode outside type, permission, setuid, setgid, sticky must be clear *)
+Definition mode_known_bits : Z := 2401763328 + 511 + 8388608 + 4194304 + 1048576.
+
+(* strict = compare the mode bits of directories too *)
 Definition mode_agrees (strict : bool) (e : sentry) (m : Z) : bool :=
   Z.eqb (Z.land m mode_type_mask) (kind_bits (se_kind e)) &&
+  Z.eqb (Z.land m mode_known_bits) m &&
   match se_kind e with
-  | SKDir => if strict then Z.eqb (Z.land m 511) (se_perm e) else true
-  | _ => Z.eqb (Z.land m 511) (se_perm e)
+  | SKDir => if strict then Z.eqb (unix_mode_of m) (se_perm e) else true
+  | _ => Z.eqb (unix_mode_of m) (se_perm e)
   end.
 
 Definition entry_agrees (strict : bool) (name : seg) (e : sentry) (n : str) (m s : Z) : bool :=
